@@ -2,6 +2,7 @@
 from __future__ import annotations
 
 import ast
+import re
 
 from sa import cfg as cfgmod
 from sa.cfg import ENTRY, EXIT_EXC, EXIT_RET, walk_expr
@@ -260,6 +261,7 @@ def _writes_prefs(n):
 # ---------------------------------------------------------------------------
 # state -> {(file, function): reason}
 STATE_WRITERS = {
+    'error handler state': {},
     'raiseExceptions': {
         ('cssutils/errorhandler.py', '_ErrorHandler.__init__'): 'initial value',
         (PARSE, 'CSSParser.__parseSetting'): 'paired switch (R12.a)',
@@ -297,6 +299,8 @@ def _state_of_write(node):
             tt = text(t)
             if tt.endswith('.raiseExceptions'):
                 return 'raiseExceptions'
+            if re.search(r'(^|\.)(_log|log)\.\w+$', tt):
+                return 'error handler state'  # any other attribute of the shared handler object (enabled, the logger behind it)
             if tt == 'cssutils.ser' or tt == 'ser':
                 return 'cssutils.ser'
             if '.ser.prefs.' in tt or tt.startswith('ser.prefs.'):
@@ -327,7 +331,7 @@ def _state_of_write(node):
 
 
 def r12c(chk, rid='R12.c'):
-    chk.rule(rid, 'who-may-write inventory of the process-wide state named in the property (error mode, global serializer and its preferences, profile registry binding, saved-token list, tokenizer cache, production list, tokenizer push-back queue): every writer is one of the functions enumerated in the checker (explicit setting APIs, paired switches, keyed caches)')
+    chk.rule(rid, 'who-may-write inventory of the process-wide state named in the property (error mode and every other attribute of the shared error handler, global serializer and its preferences, profile registry binding, saved-token list, tokenizer cache, production list, tokenizer push-back queue): every writer is one of the functions enumerated in the checker (explicit setting APIs, paired switches, keyed caches)')
     n = 0
     for rel, m in chk.repo.modules.items():
         if rel in ('cssutils/sac.py', 'cssutils/css/cssvalue.py', 'conftest.py'):
